@@ -14,6 +14,7 @@ static GLOBAL: alloc::Counting = alloc::Counting;
 mod c01;
 mod c02;
 mod c03;
+mod c03fs;
 mod c04;
 mod c05;
 mod c06;
@@ -31,6 +32,12 @@ mod c17;
 mod c17_io;
 mod c18;
 mod xinf;
+mod c18_arc;
+mod c18_fmt;
+mod c18_mat;
+mod c18_mdl;
+mod c18_pbc;
+mod c18_skel;
 
 use std::io::{BufRead, BufWriter, Write};
 
